@@ -68,19 +68,19 @@ type Violation struct {
 
 // Result is what a worker reports for a range of cases.
 type Result struct {
-	Prop        string             `json:"prop"`
-	From        int                `json:"from"`
-	To          int                `json:"to"`
-	Cases       int                `json:"cases"`
-	Evaluations int64              `json:"evaluations"`
-	Skips       int64              `json:"skips"`
-	Hashes      []uint64           `json:"hashes"`
-	Counters    map[string]int64   `json:"counters"`
+	Prop        string              `json:"prop"`
+	From        int                 `json:"from"`
+	To          int                 `json:"to"`
+	Cases       int                 `json:"cases"`
+	Evaluations int64               `json:"evaluations"`
+	Skips       int64               `json:"skips"`
+	Hashes      []uint64            `json:"hashes"`
+	Counters    map[string]int64    `json:"counters"`
 	Sets        map[string][]uint64 `json:"sets"`
-	Samples     []any              `json:"samples"`
-	Violations  []Violation        `json:"violations"`
-	SigCounts   map[string]int64   `json:"sig_counts"`
-	SelfTestErr string             `json:"selftest_err,omitempty"`
+	Samples     []any               `json:"samples"`
+	Violations  []Violation         `json:"violations"`
+	SigCounts   map[string]int64    `json:"sig_counts"`
+	SelfTestErr string              `json:"selftest_err,omitempty"`
 }
 
 // Ctx is the context of one case.
